@@ -13,6 +13,7 @@ LINES_PER_OP = {
     "SchedDriver": lambda op: 1,
     "KvsmDriver": lambda op: 1,
     "FsDriver": lambda op: 1,
+    "JepsenDriver": lambda op: len(op.get("events", [])) + 1,
 }
 
 
@@ -70,6 +71,13 @@ CHECKS = {
                      "args": {"quick": ["-n", "2", "-double", "3"], "thorough": ["-n", "12", "-double", "400"]}}],
         "rule": "DiskKVTest on a counting wrapper around vfs.NewStrictMem: EVERY mutating / syncing file-system operation index of each workload (workload 0 = first open; 3 updates; Sync; recovery from a foreign snapshot; 2 updates; Close+Open; 1 update; further workloads vary each part by seed) is a crash point (from that operation on nothing reaches stable storage, then ResetToSyncedState: all unsynced data and directory entries are lost), followed by reopen and the check 'applied index >= last acknowledged, data = updates up to that index on top of the last installed snapshot'; double crashes: for selected first crash points, every operation index of the recovering Open is a second crash point; the non-pebble part of the real trace of first open / snapshot recovery / reopen is compared with the model's sequences; evaluations = crash points (single + double), all distinct, exhaustive per workload",
         "assumptions": ["pebble: a synced batch is atomic and durable when it returns; open after a crash recovers an acknowledged prefix (crash points inside pebble are covered by the enumeration only)", "vfs.NewStrictMem is the definition of a crash"],
+    },
+    "C07": {
+        "lean": ["DrummerVerif.Props.C07"],
+        "streams": [{"cmd": "lcmrun", "driver": "JepsenDriver", "sections": None, "eval_re": r"^case:", "timeout": 1500,
+                     "args": {"quick": ["-n", "8", "-synth", "300"], "thorough": ["-n", "120", "-synth", "6000"]}}],
+        "rule": "(A) the real lcm Coordinator (scheduleProcesses through the hook, 25 rounds) with 1..40 or 1000..2000 processes against fake Drummer + NodehostAPI gRPC services on loopback implementing a linearizable register with injected latencies (0..7 ms before and after the effect) and failures (never / 1 in 30 / 1 in 8; a failed write may or may not have taken effect): the recorded history must be well formed (one outstanding operation per process, invocation before completion, written values unique and increasing, no operation after a failure), survive SaveAsJepsenLog + ParseJepsenLog with all operations, and be accepted by the bundled checker (skipped when concurrent + never-completed operations > 12: the search is exponential); (B) synthetic event lists the recorder can emit with process ids around 10 / 1000 / 10000 and up to 3000, reads of nothing, failed reads and writes: every log line and the parsed history are compared with the Lean model; evaluations = coordinator runs + log round trips",
+        "assumptions": ["Go memory model for sync/atomic and the mutex (preemption is modelled at the granularity of those operations)", "gRPC / loopback TCP"],
     },
     "C06": {
         "lean": ["DrummerVerif.Props.C06"],
